@@ -651,7 +651,19 @@ func propC05(t *rapid.T) {
 			p := loggers[rapid.IntRange(0, len(loggers)-1).Draw(t, "parent")]
 			c := &c05Logger{root: p.root}
 			op := rapid.SampledFrom([]string{"with", "named", "lazy", "increase", "hooks"}).Draw(t, "deriveOp")
-			switch op {
+			// an option may just as well be applied on the sugared side of a Sugar/Desugar round trip (twice over)
+			withOpts := func(l *zap.Logger, o zap.Option) *zap.Logger { return l.WithOptions(o) }
+			switch rapid.IntRange(0, 3).Draw(t, "optionRoute") {
+			case 0:
+				withOpts = func(l *zap.Logger, o zap.Option) *zap.Logger { return l.Sugar().WithOptions(o).Desugar() }
+				op = "sugared-" + op
+			case 1:
+				withOpts = func(l *zap.Logger, o zap.Option) *zap.Logger {
+					return l.Sugar().Desugar().Sugar().WithOptions(o).Named("").Desugar()
+				}
+				op = "roundtrip-" + op
+			}
+			switch strings.TrimPrefix(strings.TrimPrefix(op, "sugared-"), "roundtrip-") {
 			case "with":
 				c.lg = p.lg.With(zap.Int("w", len(loggers)))
 			case "named":
@@ -662,7 +674,7 @@ func propC05(t *rapid.T) {
 				b.next++
 				hn := &c05Node{id: b.next, kind: "hook", kids: []*c05Node{p.root}, hookN: new(int)}
 				cnt := hn.hookN
-				c.lg = p.lg.WithOptions(zap.Hooks(func(zapcore.Entry) error { *cnt++; return nil }))
+				c.lg = withOpts(p.lg, zap.Hooks(func(zapcore.Entry) error { *cnt++; return nil }))
 				c.root = hn
 			case "increase":
 				en := genC05Enab(t, atomics)
@@ -673,7 +685,7 @@ func propC05(t *rapid.T) {
 					}
 				}
 				e0 := len(eout.writes)
-				c.lg = p.lg.WithOptions(zap.IncreaseLevel(en.enabler()))
+				c.lg = withOpts(p.lg, zap.IncreaseLevel(en.enabler()))
 				reported := len(eout.writes) > e0
 				if reported != wantErr {
 					t.Fatalf("IncreaseLevel(%s) on %s: failure reported=%v, want %v", en, p.root, reported, wantErr)
